@@ -260,9 +260,12 @@ def apply_closures(body, sections, counts):
     for kind, arg, _t in sections:
         if kind != "closure":
             continue
-        k, rx, params, ret, spec = arg
+        k, rx, params, ret, spec = arg[:5]
+        optional = len(arg) > 5 and arg[5]
         m = mask(body)
         hits = [h for h in re.finditer(rx, body) if m[h.start()] == "|"]
+        if len(hits) < k and optional:
+            continue
         if len(hits) < k:
             raise AnchorError(f"closure anchor /{rx}/ #{k} not found ({len(hits)} matches)")
         h = hits[k - 1]
@@ -447,10 +450,12 @@ def build_unit(template, repo, out_path, contracts_dir=None, vacuity=False):
                     # `//@ closure <k> /regex matching `|params|`/ | <typed params> | <ret name: type> | <ghost spec>`
                     # R13: the k-th closure whose parameter list matches gets its parameters typed, its result
                     # named and a ghost contract; the body expression is kept verbatim (wrapped in braces)
-                    cm = re.match(r"(\d+)\s+/(.*?)/\s*\|(.*?)\|(.*?)\|(.*)$", rest)
+                    # `?<k>` makes the directive optional: a body that no longer contains the closure is verified
+                    # without it (its remaining calls then have to satisfy their contracts on their own)
+                    cm = re.match(r"(\??)(\d+)\s+/(.*?)/\s*\|(.*?)\|(.*?)\|(.*)$", rest)
                     if not cm:
                         raise ValueError(f"bad closure directive: {sl}")
-                    sections.append(("closure", (int(cm.group(1)), cm.group(2), cm.group(3).strip(), cm.group(4).strip(), cm.group(5).strip()), ""))
+                    sections.append(("closure", (int(cm.group(2)), cm.group(3), cm.group(4).strip(), cm.group(5).strip(), cm.group(6).strip(), cm.group(1) == "?"), ""))
                     cur = None
                 elif k == "iter":
                     # `//@ iter <n> <name>`: name the ghost iterator of the n-th loop (a `for`): ghost only
